@@ -1789,8 +1789,13 @@ def _takeslice(__array: IntoArray, __s: slice, __axis: int) -> Array:
     axis = __axis
     n = array.shape[axis]
     if s.step == None or s.step == 1:
-        start = 0 if s.start is None else s.start if s.start >= 0 else s.start + n
-        stop = n if s.stop is None else s.stop if s.stop >= 0 else s.stop + n
+        if isinstance(n, numbers.Integral):
+            # clip out-of-range bounds the way Python and NumPy do
+            start, stop, _ = s.indices(int(n))
+            stop = builtins.max(start, stop)
+        else:
+            start = 0 if s.start is None else s.start if s.start >= 0 else s.start + n
+            stop = n if s.stop is None else s.stop if s.stop >= 0 else s.stop + n
         if start == 0 and stop == n:
             return array
         length = stop - start
